@@ -385,10 +385,25 @@ fn scoring(seed: u64, rounds: usize, rep: &mut Report) {
             Ok(ind) if ind.genome.serial == expect_serial && log == vec![expect_serial] && ind.test_results == (expect_serial.rotate_left(9), ind.genome.payload.len()) => {}
             other => rep.violation("C15/IndividualGenerator/genome-or-score", || json!({"expected_serial": expect_serial, "scorer_calls": log, "observed": format!("{other:?}")})),
         }
+        // the same generator value asked again: the second individual carries *its* genome and
+        // the score of that genome (nothing remembered from the first one)
+        {
+            SCORED.with(|l| l.borrow_mut().clear());
+            let expect2 = rng.clone().next_u64();
+            let second = catch(|| gen.sample(&mut rng));
+            let log = SCORED.with(|l| l.borrow().clone());
+            rep.eval();
+            match second {
+                Ok(ind) if ind.genome.serial == expect2 && log == vec![expect2] && ind.test_results == (expect2.rotate_left(9), ind.genome.payload.len()) => {}
+                other => rep.violation("C15/IndividualGenerator/genome-or-score", || json!({"sample": "second from the same generator value", "expected_serial": expect2, "scorer_calls": log, "observed": format!("{other:?}")})),
+            }
+        }
         // the WithScorer convenience builds the same generator
         SCORED.with(|l| l.borrow_mut().clear());
         let mut rng2 = TraceRng::new(s);
-        let ind2 = SerialGenomes.with_scorer(RecScorer).sample(&mut rng2);
+        let ws = SerialGenomes.with_scorer(RecScorer);
+        let ind2 = ws.sample(&mut rng2);
+        let _ = ws.sample(&mut rng2);
         rep.eval();
         if ind2.genome.serial != expect_serial || ind2.test_results.0 != expect_serial.rotate_left(9) || rng2.fingerprint() != rng.fingerprint() {
             rep.violation("C15/WithScorer/genome-or-score", || json!({"expected_serial": expect_serial, "observed": format!("{ind2:?}")}));
